@@ -672,6 +672,125 @@ def differs(h, f):
     return "dumps differ"
 
 
+def reference(mv):
+    """Independent reference loader (plain Python over the files of the scenario, final versions): outcome and
+    item list of theory.thy after the final load.  Synthetic libraries: an axiom parses iff the constants it
+    mentions are visible, a constant defined twice in a file raises.  Real theories: the per-item error flags
+    are taken from the implementation (item contents are not interpreted here)."""
+    sc = mv.sc
+    cur = sc.final_versions() if sc.kind != "real" else {n: 0 for n in mv.names}
+    files = {n: mv.files[n][cur[n]] for n in mv.names}
+    fin = sc.ops[-1]
+    done = set()
+
+    def visit(n, path):
+        if n not in files:
+            raise KeyError(n)
+        if n in done:
+            return
+        if n in path:
+            raise RecursionError(n)
+        for i in files[n]["imports"]:
+            visit(i, path + [n])
+        done.add(n)
+    try:
+        for n in sorted(mv.names):
+            visit(n, [])
+    except KeyError:
+        return "key", None
+    except RecursionError:
+        return "cycle", None
+    if fin["name"] not in files:
+        return "key", None
+
+    def order(roots):
+        out = []
+
+        def go(n):
+            if n in out:
+                return
+            for i in files[n]["imports"]:
+                go(i)
+            out.append(n)
+        for r in roots:
+            go(r)
+        return out
+    memo = {}
+
+    def content(n):
+        """list of ok flags, or None when parsing the file raises"""
+        if n in memo:
+            return memo[n]
+        visible = set()
+        for p in order(files[n]["imports"]):
+            c = content(p)
+            if c is None:
+                memo[n] = None
+                return None
+            if sc.kind == "synth":
+                visible |= {it["name"] for it, ok in zip(files[p]["content"], c) if ok and it["ty"] == "def.ax"}
+        res = []
+        if sc.kind == "synth":
+            for it in files[n]["content"]:
+                if it["ty"] == "def.ax":
+                    if it["name"] in visible:
+                        memo[n] = None
+                        return None
+                    visible.add(it["name"])
+                    res.append(True)
+                elif it["ty"] == "thm.ax":
+                    res.append(all(w in visible for w in it["prop"].split() if w != "⟶"))
+                else:
+                    res.append(True)
+        else:
+            fl = mv.flags.get(n)
+            res = list(fl) if fl is not None else [True] * len(files[n]["items"])
+        memo[n] = res
+        return res
+    own = content(fin["name"])
+    if own is None:
+        return "parse", None
+    imp_items = []
+    for p in order(files[fin["name"]]["imports"]):
+        imp_items += [[p, i] for i, ok in enumerate(content(p)) if ok]
+    lim = fin["limit"]
+    if lim == "start":
+        return "ok", (imp_items, [])
+    stop = len(own)
+    if lim is not None:
+        stop = next((i for i, (ty, nm) in enumerate(files[fin["name"]]["items"]) if ty == lim[0] and nm == lim[1]), None)
+        if stop is None:
+            return "limit", None
+    return "ok", (imp_items, [[fin["name"], i] for i in range(stop) if own[i]])
+
+
+def judge_spec(ctx, sc, run, mv, which):
+    """property oracle (c): outcome and items of theory.thy against the reference loader"""
+    kind, exp = reference(mv)
+    got = map_res(run["ops"][-1]["res"])
+    fin = sc.ops[-1]
+    what = None
+    if got != kind:
+        what = "outcome %s (%s), the library says %s" % (got, run["ops"][-1]["res"], kind)
+    elif kind == "ok":
+        items = run["final"]["thy_items"] or []
+        own = [x for x in items if x[0] == fin["name"]]
+        imp = [x for x in items if x[0] != fin["name"]]
+        if sorted(map(tuple, imp)) != sorted(map(tuple, exp[0])):
+            a, b = {tuple(x) for x in imp}, {tuple(x) for x in exp[0]}
+            what = "items of imported theories differ: extra %s, missing %s" % (sorted(a - b)[:4], sorted(b - a)[:4])
+        elif own != exp[1]:
+            what = "own items loaded %s..., expected %s... (%d / %d items)" % (own[-3:], exp[1][-3:], len(own), len(exp[1]))
+    if what is not None:
+        ctx.violation("spec:" + classify_history(sc)[8:] if which == "history" else "spec-fresh:" + json.dumps(
+            [fin["name"], fin["limit"]], ensure_ascii=False) + ("" if sc.kind == "real" else "|" + classify_history(sc)[-200:]),
+            "load_theory(%s, limit=%s) in a %s: %s. History: %s (%s)" % (
+                fin["name"], fin["limit"], "fresh process" if which == "fresh" else "process with a history", what,
+                json.dumps(sc.ops if which == "history" else sc.ops[-1:], ensure_ascii=False)[:500], sc.note),
+            {"scenario": sc.to_json(), "difference": what, "which": which})
+    return what
+
+
 def classify_history(sc):
     """Key of a violation: the class of the history when a whole class triggers the defect, else the history."""
     return "history:" + json.dumps(sc.ops, sort_keys=True, ensure_ascii=False) + ("" if sc.kind == "real" else
@@ -761,6 +880,8 @@ def run_scenarios(ctx, scs, src, label):
             nviol += 1
         if "error" not in h and "error" not in f:
             ctx.count("final:" + map_res(h["ops"][-1]["res"]))
+            if judge_spec(ctx, sc, f, views[idx], "fresh") or judge_spec(ctx, sc, h, views[idx], "history"):
+                nviol += 1
             correspond(ctx, sc, h, f, src, out[idx] if out else None, views[idx], "%s-%d" % (label, idx))
     if out is None:
         ctx.broken("correspondence:c12:driver", "model driver unavailable")
